@@ -292,13 +292,14 @@ def kron_problems(case):
     except Exception as e:
         return [("kron:construct:exception:%s" % _excname(e), "KroneckerOperator(...) raised %r" % (e,), None, None)], {}
     probs, n = linop_problems("kron", op, D, case["modes"], seed, tag=branch)
-    if not probs and len(objs) >= 2 and not case.get("dtypes") and any(m[0] == "A" for m in case["modes"]):
+    sel = [m for m in ("A", "T") if any(mm[0] == m for mm in case["modes"])]
+    if not probs and len(objs) >= 2 and not case.get("dtypes") and sel:
         # the same factors with half-integer entries, applied to integer / float32 arguments
         try:
             pairs2 = [make_operand(k, m, n_, i, seed, scale=0.5) for i, (m, n_, k) in enumerate(case["factors"])]
             op2 = O.KroneckerOperator(*[p[0] for p in pairs2])
             D2 = R.kron_all([p[1] for p in pairs2])
-            probs2, n2 = linop_problems("kron", op2, D2, [["A", ["d"]], ["T", ["d"]]], seed, tag=branch + ":argdtype")
+            probs2, n2 = linop_problems("kron", op2, D2, [[m, ["d"]] for m in sel], seed, tag=branch + ":argdtype")
             probs += probs2
             n += n2
         except Exception as e:
